@@ -281,14 +281,36 @@ func c08Random(c *Ctx, idx int) {
 	c.c08Text(text, "random")
 }
 
+// history: a valid text is searched first, then decorated variants of it (runes
+// that trimming functions remove but the grammar does not allow); the verdict on
+// each text must not depend on what was evaluated before in the same process
+var c08Decor = []string{"\v", "\f", "\u0085", "\u00a0", "\u2003", "\u3000", "\ufeff", "\x00", "\u200b"}
+
+func c08History(c *Ctx, idx int) {
+	c03Setup(c)
+	r := c.Rand("")
+	e := gen.Pick(r, c03Corpus)
+	if pr := ref.Parse(e); pr.Status != ref.ParseOK {
+		return
+	}
+	c.c08Text(e, "history-plain")
+	c.c08Text(" "+e+" ", "history-spaced")
+	for _, d := range c08Decor {
+		c.c08Text(e+d, "history-decorated")
+		c.c08Text(d+e, "history-decorated")
+	}
+	c.c08Text(e, "history-plain-again")
+}
+
 func init() {
 	Register(&Property{
 		ID:            "C08",
-		Rule:          "failing texts generated per category and site - every builtin with every wrong argument count (also nested and in never-evaluated branches), unknown names incl. near misses, expression references in value position and values in expression-reference position for every function and position, a wrong JSON type at every argument position, every invalid-value site (slice step 0, negative/non-integral counts and widths, pad strings, from_items shapes), undefined variables at top level/projections/filters/expression references/let bodies, division by zero and overflow per operator, two-fault combinations, syntax faults, plus seeded mutated expressions - each run through Compile and through Search and Expression.Search on 9 documents (null, scalar, arrays, objects, fault-triggering, foreign Go values); checks per call: nil result with an error, exactly one exported category under errors.Is, non-empty text, category = the model's (single fault) or within the model's fault set (several), Compile and Search report the same static fault for every document, a compiled Expression never reports syntax/arity/unknown-function; non-trivial = the model expects an error on at least one document; distinct by text",
+		Rule:          "failing texts generated per category and site - every builtin with every wrong argument count (also nested and in never-evaluated branches), unknown names incl. near misses, expression references in value position and values in expression-reference position for every function and position, a wrong JSON type at every argument position, every invalid-value site (slice step 0, negative/non-integral counts and widths, pad strings, from_items shapes), undefined variables at top level/projections/filters/expression references/let bodies, division by zero and overflow per operator, two-fault combinations, syntax faults, plus seeded mutated expressions, plus call histories (a valid text searched first, then the same text decorated with runes that trimming removes but the grammar rejects) - each run through Compile and through Search and Expression.Search on 9 documents (null, scalar, arrays, objects, fault-triggering, foreign Go values); checks per call: nil result with an error, exactly one exported category under errors.Is, non-empty text, category = the model's (single fault) or within the model's fault set (several), Compile and Search report the same static fault for every document, a compiled Expression never reports syntax/arity/unknown-function; non-trivial = the model expects an error on at least one document; distinct by text",
 		MinNontrivial: 500,
 		Streams: []Stream{
 			{Name: "sites", Setup: c08Setup, N: c08N, Run: c08Run, Exhaustive: true},
 			{Name: "random", Setup: c08Setup, N: func(c *Ctx) int { return tierN(c, 20000, 300000) }, Run: c08Random},
+			{Name: "history", Setup: c08Setup, N: func(c *Ctx) int { return tierN(c, 1500, 20000) }, Run: c08History},
 		},
 	})
 	_ = jmespath.ErrSyntax
